@@ -244,6 +244,31 @@ func (it *Interp) branchVal(cond *Term, val uint64) bool {
 	return take
 }
 
+// branchFree decides cond (= "v == takeVal" for a variable v that is otherwise
+// constrained only to a range containing altVal) without asking the solver: both
+// sides are feasible by construction.
+func (it *Interp) branchFree(cond *Term, varName string, takeVal, altVal uint64) bool {
+	d := it.depth
+	if d < it.prefixLen || it.model == nil || it.noModel {
+		return it.branch(cond)
+	}
+	if d >= it.eng.cfg.MaxDecisions {
+		panic(&abort{"unwind", fmt.Sprintf("more than %d decisions on one path", it.eng.cfg.MaxDecisions)})
+	}
+	it.depth++
+	it.hs.transitions.Add(1)
+	alt := make(Model, len(it.model)+1)
+	for k, v := range it.model {
+		alt[k] = v
+	}
+	alt[varName] = altVal
+	it.model[varName] = takeVal
+	it.ctx.NewEpoch()
+	it.trail = append(it.trail, decision{take: true, altPending: true, altModel: alt})
+	it.addPC(cond)
+	return true
+}
+
 // assume adds a constraint; ends the path when it is infeasible.
 func (it *Interp) assume(cond *Term) {
 	if cond.IsConst() {
